@@ -316,3 +316,32 @@ def related_passwords(pw):
         if x != pw and x not in seen:
             seen.add(x); res.append(x)
     return res
+
+
+def persist(ctx, ty, state, fmt):
+    """a pending state saved to and reloaded from a session store in the given encoding (native bytes - already what the
+    line protocol does between steps -, serde-bincode, serde-json).  The model's reload is the identity (theorems of C13),
+    so the model side returns the state unchanged; the code side must give back a state that behaves the same."""
+    if fmt in (None, "native", "none") or state is None:
+        return state
+    r = ctx.call("serde_enc", ty, fmt, state, impl_only=True)
+    if r is None:
+        return state
+    if not ctx.expect(r.ok, "pending %s saves through serde-%s (%s)" % (ty, fmt, r.err)):
+        return state
+    rr = ctx.call("serde_dec", ty, fmt, r.b(0), impl_only=True)
+    if not ctx.expect(rr.ok, "pending %s reloads through serde-%s (%s)" % (ty, fmt, rr.err)):
+        return state
+    ctx.expect(rr.b(0) == state, "pending %s is unchanged by a save and reload through serde-%s" % (ty, fmt))
+    return rr.b(0)
+
+
+def fallible_rng_same(ctx, r, op, *args):
+    """`<op>!` (harness only, PROTOCOL.md): the generator's fallible entry point reports an error while the infallible
+    ones keep reading the tape.  The library must either report an error or answer exactly as `<op>` did (r): a
+    swallowed generator error must never be replaced by predictable bytes."""
+    q = ctx.call(op + "!", *args, impl_only=True)
+    if q is None:
+        return
+    ctx.expect(q.status in ("OK", "ERR") and (q.status == "ERR" or q.payload == r.payload),
+               "%s with a generator whose fallible entry point fails: an error or the same answer, never other bytes (%s)" % (op, q.status))
